@@ -453,7 +453,9 @@ pub fn run_c10(a: &Args) {
         }
         const BODY: &[&[u8]] = &[b"a", b"\\\"", b"\\\\", b"\\/", b"\\b", b"\\f", b"\\n", b"\\r", b"\\t", b"\\u0041", b"\\u004a", b"\\u004A", b"\\u0000", b"\\u001f", b"\\u007f", b"\\u00", b"\\u00g1", b"\\u", b"\\", b"\\x", b"\\a", b"\\0", b"\"", b"\n", b"\t", b"\x01", b"\x1f", b"\x7f", b" ", b"/", b"u", b"\\U0041",
             b"\\u00e9", b"\\u0080", b"\\u07ff", b"\\u0800", b"\\u20ac", b"\\uffff", b"\\ud7ff", b"\\ue000", b"\\ud83d\\ude00", b"\\uD83D\\uDE00", b"\\udbff\\udfff", b"\\ud800\\udc00",
-            b"\\ud83d", b"\\ude00", b"\\ud83d\\u0041", b"\\ud83d\\ud83d", b"\\ud83dx", b"\\ud83d\\n", b"\xc3\xa9", b"\xe2\x82\xac", b"\xf0\x9f\x98\x80", b"\xff", b"\xc3", b"\xed\xa0\x80", b"\xc0\xaf"];
+            b"\\ud83d", b"\\ude00", b"\\ud83d\\u0041", b"\\ud83d\\ud83d", b"\\ud83dx", b"\\ud83d\\n", b"\xc3\xa9", b"\xe2\x82\xac", b"\xf0\x9f\x98\x80", b"\xff", b"\xc3", b"\xed\xa0\x80", b"\xc0\xaf",
+            // pinned: the three bodies on which the first (ASCII-only) reader model answered `unsupported` in a thorough run
+            b"\\u00aa", b"\\u00aa\\u0000a", b"\\\"\\\\\\u00aa\x01"];
         for i in 0..n_txt {
             let b: Vec<u8> = if i < BODY.len() { BODY[i].to_vec() } else { (0..rng.range(0, 6)).flat_map(|_| rng.pick(BODY).to_vec()).collect() };
             let mut tok = vec![b'"']; tok.extend(&b); tok.push(b'"');
